@@ -57,7 +57,20 @@ type call struct {
 
 type marker int
 
+// factsBroken is set when a filter or the method cannot read the routed method from its context any more
+var factsBroken string
+
 func seen(ctx context.Context) []int {
+	func() {
+		defer func() {
+			if r := recover(); r != nil {
+				factsBroken = fmt.Sprint("reading the routed method panicked: ", r)
+			}
+		}()
+		if m := restli.GetMethodFromContext(ctx); m != restli.Method_get {
+			factsBroken = fmt.Sprintf("the routed method reads %v, the request is a get", m)
+		}
+	}()
 	out := []int{}
 	for j := 1; j <= 8; j++ {
 		if ctx.Value(marker(j)) != nil {
@@ -84,7 +97,12 @@ func (f *filter) PreRequest(req *http.Request) (context.Context, error) {
 	case "failpre":
 		return nil, errResp(403)
 	case "addctx":
-		return context.WithValue(req.Context(), marker(f.i), true), nil
+		// the filter's own marker -- added through the library's own context helpers as well (a header-propagating and a
+		// header-capturing filter): none of this may disturb the routing facts later filters and the method read
+		ctx := context.WithValue(req.Context(), marker(f.i), true)
+		ctx = restli.ExtraRequestHeaders(ctx, func() (http.Header, error) { return http.Header{"X-Trace": {"t"}}, nil })
+		ctx, _ = restli.AddResponseHeadersCaptor(ctx)
+		return ctx, nil
 	}
 	return nil, nil
 }
@@ -149,7 +167,20 @@ func main() {
 				})
 			rec := httptest.NewRecorder()
 			req := httptest.NewRequest("GET", path, nil)
-			s.Handler().ServeHTTP(rec, req)
+			factsBroken = ""
+			func() {
+				defer func() {
+					if r := recover(); r != nil {
+						factsBroken = fmt.Sprint("ServeHTTP panicked: ", r)
+					}
+				}()
+				s.Handler().ServeHTTP(rec, req)
+			}()
+			if factsBroken != "" {
+				emit(map[string]any{"kind": "violation", "key": fmt.Sprintf("C05/filters/routing-facts-lost/%v/%s", row.Chain, row.Outcome),
+					"what": factsBroken, "case": map[string]any{"chain": row.Chain, "outcome": row.Outcome, "mount": mount}})
+				continue
+			}
 			cs := map[string]any{"chain": row.Chain, "outcome": row.Outcome, "mount": mount, "observed_log": log, "specified_log": row.Log, "observed_status": rec.Code, "specified_status": row.Status}
 			if !reflect.DeepEqual(log, row.Log) {
 				emit(map[string]any{"kind": "violation", "key": fmt.Sprintf("C05/filters/call-order-or-context/%v/%s", row.Chain, row.Outcome),
